@@ -283,18 +283,47 @@ def check_inputs(repo: Repo, rep: Report):
 
 
 def check_cleanup(repo: Repo, rep: Report):
-    for qual, acquire_pred, release_pred, what in (
-        (f"{PG}.create_polyglot", lambda c, q: len(c.args) == 2 and (dotted(c.args[1]) or "").startswith("temp_") and isinstance(c.args[0], ast.Name) and not q.startswith("os.path"), lambda c, q, name: q in ("os.remove", "os.unlink") and c.args and dotted(c.args[0]) == name, "temp copy"),
-        (f"{PG}.create_standard_torchscript_polyglot", lambda c, q: isinstance(c.func, ast.Attribute) and c.func.attr == "extract" and len(c.args) == 2 and isinstance(c.args[1], ast.Constant), lambda c, q, name: q in ("shutil.rmtree",) and c.args and isinstance(c.args[0], ast.Constant) and c.args[0].value == name, "extraction directory"),
+    def acq_copy(f, c, q, parents):
+        if len(c.args) == 2 and (dotted(c.args[1]) or "").startswith("temp_") and isinstance(c.args[0], ast.Name) and not q.startswith("os.path"):
+            return dotted(c.args[1])
+        return None
+
+    def acq_extract(f, c, q, parents):
+        if isinstance(c.func, ast.Attribute) and c.func.attr in ("extract", "extractall") and len(c.args) >= 2:
+            if isinstance(c.args[1], ast.Constant):
+                return c.args[1].value
+            if dotted(c.args[1]):
+                return dotted(c.args[1])
+        if q in ("tempfile.mkdtemp", "tempfile.mkstemp", "tempfile.mktemp"):
+            st = parents.get(id(c))
+            if isinstance(st, ast.Assign) and len(st.targets) == 1 and isinstance(st.targets[0], ast.Name):
+                return st.targets[0].id
+            return "<unnamed temporary>"
+        if q in ("os.mkdir", "os.makedirs") and c.args:
+            return c.args[0].value if isinstance(c.args[0], ast.Constant) else dotted(c.args[0])
+        return None
+
+    def rel_rmtree(c, q, name):
+        return q in ("shutil.rmtree",) and bool(c.args) and ((isinstance(c.args[0], ast.Constant) and c.args[0].value == name) or dotted(c.args[0]) == name)
+
+    for qual, acquire_fn, release_pred, what in (
+        (f"{PG}.create_polyglot", acq_copy, lambda c, q, name: q in ("os.remove", "os.unlink") and c.args and dotted(c.args[0]) == name, "temp copy"),
+        (f"{PG}.create_standard_torchscript_polyglot", acq_extract, rel_rmtree, "extraction directory"),
     ):
         f = repo.func(qual)
         g = CFG(f.node, exc_edges=True)
         acquires = []
+        parents = {}
+        for st in body_walk(f.node):
+            if isinstance(st, ast.stmt):
+                for ch in ast.iter_child_nodes(st):
+                    if isinstance(ch, ast.Call):
+                        parents[id(ch)] = st
         for n in body_walk(f.node):
             if isinstance(n, ast.Call):
                 q = repo.resolve_expr(f.module, n.func, set(f.params())) or ""
-                if acquire_pred(n, q):
-                    name = dotted(n.args[1]) if dotted(n.args[1]) else n.args[1].value
+                name = acquire_fn(f, n, q, parents)
+                if name is not None:
                     acquires.append((n, name))
         if not acquires:
             raise AnalysisError(f"{qual}: no temporary artefact creation found (anchor vanished)")
